@@ -6,6 +6,7 @@ import (
 	"fmt"
 	"strings"
 	"testing"
+	"time"
 
 	"github.com/orda-io/orda/client/pkg/iface"
 	"github.com/orda-io/orda/client/pkg/model"
@@ -437,5 +438,157 @@ func TestC14Constructed(t *testing.T) {
 		}
 		big := strings.Contains(string(mop.Body), "9007199254740993") || strings.Contains(string(mop.Body), "4611686018427387903") || id.Lamport > 1<<53
 		col.Case(big || strings.Count(string(mop.Body), "{") > 3, mop.OpType.String()+string(mop.Body)+fmt.Sprint(mop.ID), []string{"op=" + mop.OpType.String()}, func() interface{} { return c.j.Header })
+	})
+}
+
+// c14BigCall is a call whose encoded body is far beyond what the usual value generators produce
+// (hundreds to thousands of bytes): long strings over a drawn alphabet, long batches of numbers.
+func c14BigCall(rt *rapid.T, kind sim.Kind, i int) sim.Call {
+	big := func(label string) sim.Val {
+		if rapid.Bool().Draw(rt, label+".numbers") {
+			var l []sim.Val
+			for j := rapid.SampledFrom([]int{60, 150, 400}).Draw(rt, label+".n"); j > 0; j-- {
+				l = append(l, sim.I(int64(j*7919%100003)))
+			}
+			return sim.Val{T: "slice", L: l}
+		}
+		unit := rapid.SampledFrom([]string{"0123456789", "ab\"c\\d", "문서", "x y,z;", "\U0001F600é"}).Draw(rt, label+".alphabet")
+		n := rapid.SampledFrom([]int{470, 505, 513, 700, 3000}).Draw(rt, label+".len")
+		var sb strings.Builder
+		for sb.Len() < n {
+			sb.WriteString(unit)
+		}
+		return sim.S(sb.String())
+	}
+	l := fmt.Sprintf("big%d", i)
+	switch kind {
+	case sim.Map:
+		return sim.Call{M: "Put", Key: rapid.SampledFrom([]string{"a", "b", "long"}).Draw(rt, l+".k"), Vals: []sim.Val{big(l)}}
+	case sim.List:
+		v := big(l)
+		if v.T == "slice" {
+			return sim.Call{M: "InsertMany", Pos: 0, Vals: v.L}
+		}
+		return sim.Call{M: "Insert", Pos: 0, Vals: []sim.Val{v}}
+	case sim.Document:
+		return sim.Call{M: "PutToObject", Key: rapid.SampledFrom([]string{"a", "b", "long"}).Draw(rt, l+".k"), Vals: []sim.Val{big(l)}}
+	}
+	return sim.Call{M: "IncreaseBy", Vals: []sim.Val{sim.I(int64(i))}}
+}
+
+// TestC14Server: "also after ... storage in MongoDB" taken literally - the operations travel through the
+// real server (request decoding, the handler, the operations collection of the fake MongoDB) and back out
+// to a second client.
+func TestC14Server(t *testing.T) {
+	col := stats.New("C14", t.Name(),
+		"a client creates a datatype of a drawn kind on the real server and pushes, in 1-3 requests, operations produced by generated API calls (the C03 call generator with hostile values, plus calls whose encoded body is 0.5-3 kB: long strings over drawn alphabets, batches of 60-400 numbers); "+
+			"oracle: every pushed operation is found in the operations collection with the same identifier, type and JSON-canonical body; a second client that subscribes afterwards, the server's own rebuild and the pushing client expose identical state; "+
+			"non-trivial = at least one pushed operation has a body of more than 512 bytes; distinct = hash of the call sequence")
+	checkProp(t, "C14", col, func(c *caseCtx) {
+		rt := c.rt
+		kind := kindFromDraw(rt)
+		idseed := rapid.Uint64Range(1, 1<<40).Draw(rt, "idseed")
+		w, err := newL1World(idseed, []sim.Kind{kind})
+		if err != nil {
+			c.failf("HARNESS-ERROR: %v", err)
+		}
+		defer w.close()
+		c.j.Header = map[string]interface{}{"kind": kind, "id_seed": idseed}
+		k := w.keys[0]
+		a, err := w.addClient()
+		if err != nil {
+			c.failf("HARNESS-ERROR: %v", err)
+		}
+		d := w.open(a, k, "create")
+		pm := newPlainModel(kind)
+		if kind == sim.Document {
+			pm.doc.bind(d.dt)
+		}
+		var canon strings.Builder
+		bigBodies, pushed := 0, 0
+		for round := rapid.IntRange(1, 3).Draw(rt, "requests"); round > 0; round-- {
+			for i := rapid.IntRange(1, 8).Draw(rt, "calls"); i > 0; i-- {
+				var call sim.Call
+				if rapid.IntRange(0, 2).Draw(rt, "big") == 0 {
+					call = c14BigCall(rt, kind, i)
+				} else {
+					call = genC03Call(rt, pm)
+				}
+				if !sim.Mutating(call.M) {
+					continue
+				}
+				ex := pm.expect(call)
+				if ex.class == mustErr {
+					continue
+				}
+				c.j.add(c03Action{K: "call", Call: &call})
+				canon.WriteString(call.String() + ";")
+				res := sim.Exec(kind, d.dt, call)
+				if res.Panic != nil {
+					c.failf("%s panicked: %v", call, res.Panic)
+				}
+				if res.Err == nil && res.NavErr == nil && ex.apply != nil {
+					ex.apply()
+				}
+			}
+			sent := cloneOps(d.dt.CreatePushPullPack().Operations, 0)
+			c.j.add(map[string]interface{}{"k": "sync"})
+			if ex := w.syncClient(a); ex == nil || exchangeProblem(a, ex) != nil {
+				c.failf("the push was not accepted: %v", exchangeProblem(a, ex))
+			}
+			log, _ := w.storedLog(d.dt.GetDUID())
+			stored := map[string]*model.Operation{}
+			for _, so := range log {
+				stored[opKey(so.op)] = so.op
+			}
+			for _, op := range sent {
+				pushed++
+				if len(op.Body) > 512 {
+					bigBodies++
+				}
+				got := stored[opKey(op)]
+				if got == nil {
+					c.failf("%s %s was pushed in an accepted request but is not in the operations collection", op.OpType, opKey(op))
+				}
+				if df := opEquivalent(op, got); df != "" {
+					c.failf("%s %s (body of %d bytes) as stored by the server differs from what the client pushed: %s", op.OpType, opKey(op), len(op.Body), df)
+				}
+			}
+		}
+		b, err := w.addClient()
+		if err != nil {
+			c.failf("HARNESS-ERROR: %v", err)
+		}
+		db := w.open(b, k, "subscribe")
+		var perr interface{}
+		var exb *exchange
+		func() {
+			defer func() { perr = recover() }()
+			exb = w.syncClient(b)
+		}()
+		if perr != nil {
+			c.failf("the subscriber panicked on what the server delivered: %v", perr)
+		}
+		if exb == nil || exchangeProblem(b, exb) != nil {
+			c.failf("the subscriber's sync failed: %v", exchangeProblem(b, exb))
+		}
+		want := sim.Observe(kind, d.dt, keyPoolHostile)
+		if got := sim.Observe(kind, db.dt, keyPoolHostile); got != want {
+			c.failf("the subscriber differs from the client that pushed the operations:\n  pusher:     %s\n  subscriber: %s", want, got)
+		}
+		w.env.WaitBackground(3 * time.Second)
+		sc, _, err := w.serverCopy(k)
+		if err != nil {
+			c.failf("the server cannot rebuild the datatype from what it stored: %v", err)
+		}
+		if got := sim.Observe(kind, sc, keyPoolHostile); got != want {
+			c.failf("the server's rebuild differs from the client that pushed the operations:\n  pusher: %s\n  server: %s", want, got)
+		}
+		if err := w.infraProblem(); err != nil {
+			c.failf("%v", err)
+		}
+		col.Case(bigBodies > 0, string(kind)+canon.String(), []string{"kind=" + string(kind), fmt.Sprintf("bodies>512B=%v", bigBodies > 0)}, func() interface{} {
+			return map[string]interface{}{"kind": kind, "pushed_operations": pushed, "bodies_over_512_bytes": bigBodies}
+		})
 	})
 }
